@@ -27,16 +27,18 @@ PARTIAL = ["Q is an isometry and Q R = tensor is the contract of numpy.linalg.qr
            "proved is the bookkeeping: which node is split toward which neighbour, for every distance table "
            "(canon_gauge, move_gauge) and, with C17's dist_table, for every well-formed tree and centre incl. completion "
            "(canon_gauge_tree); that the recorded tensors are isometries then follows from the QR contract and the "
-           "composition lemmas (env_isometry_compose/kron, keep_mode_padding) - this last step is not formalised as one "
-           "theorem about a tensor network, it is checked per node by the oracle",
+           "composition lemmas (env_isometry_compose/kron, keep_mode_padding); at value level this step is one theorem "
+           "(canonical_form_isometric_tree) given the per-call contracts, and it is checked per node by the oracle",
            "state invariance (value level) is PROVED for every run of canonOps / moveOps on a valued network, every tree and "
            "centre, all dimensions, any commutative semiring, given one factorisation contract A = sum Q.R per QR call "
            "(canonical_form_value, move_centre_value, canonical_form_value_tree; hypotheses = the per-call QR contracts); per "
            "input it is decided by the dense oracle and, for integer states, by the Lean model's own exact evaluation of the "
            "network before the operations against the library's dense state after them",
-           "norm from the centre tensor alone = full norm: proved in index form for two tensors (centre_norm_two) and for any "
-           "sequence of absorptions of isometries (centre_norm_value_partial); that the farthest-first order is such a "
-           "sequence for every tree in canonical form is not formalised"]
+           "gauge record => index-form isometry and norm from the centre tensor alone = full norm: PROVED for every tree, "
+           "every centre, every run of canonOps with the full per-call QR contract (A = sum Q.R, Q an isometry toward the new "
+           "bond, one dimension for the new bond): run_isometric, canonical_form_isometric_tree, tree_canon (Kids.Canon of "
+           "Common/EinsumIso for the re-rooted tree), canonical_form_centre_norm. The norm network there is the one built along "
+           "the tree; that the valued network has no nodes / bonds beyond the tree's is not part of the statement"]
 ASSUMPTIONS = ["numpy.linalg.qr contract", "dense contraction by tensordot over labelled legs"]
 
 MODES = ["REDUCED", "FULL", "KEEP"]
